@@ -589,6 +589,13 @@ impl Hooks for Obs {
         if let Event::ThreadEnd(_) = event {
             TL_ROLE.with(|r| r.set(0));
         }
+        // A failed validation's verdict is reported after the cursor was rewound and before the
+        // remaining conflict bookkeeping (dependency re-offer, anything a change may have moved
+        // there): treat it as a schedule point of the estimate/rewind class as well. The thread
+        // holds its transaction lock here, which is exactly what a pre-empted validator does.
+        if let Event::ValidationEnd { txid, incarnation, ok: false } = event {
+            self.point(Point::ValidateAfterEstimate, txid, incarnation);
+        }
     }
 
     fn park_timeout(&self, _slot: usize, default: Duration) -> Duration {
